@@ -477,7 +477,18 @@ fn reader_side(ctx: &Ctx, comp: &Comp, cname: &str, o: &LZMAOptions, data: &[u8]
     let mut held = 0u64;
     for si in 0..nseq {
         // sequences with and without zero-length reads
-        let sizes: Vec<usize> = match si % 8 {
+        let sizes: Vec<usize> = match si % 10 {
+            // reads that end exactly at / one byte around the boundaries the readers keep internally:
+            // the 5000-byte units of the chunked containers, the dictionary size (the LZ decoder's
+            // circular buffer wraps there), the filter readers' 4096-byte buffer
+            8 => {
+                let u = *r.pick(&[5000usize, o.dict_size as usize, 4096, 8192, 65536]);
+                vec![u, 0, 1, u - 1]
+            }
+            9 => {
+                let u = *r.pick(&[5000usize, o.dict_size as usize, 4096, 8192, 65536]);
+                vec![u - 1, 1, 0, u + 1, u - 1]
+            }
             0 => vec![1],
             1 => vec![0, 1],
             2 => vec![*r.pick(&[2usize, 3, 5, 7, 13]), 0],
